@@ -48,6 +48,10 @@ class Summ:
                 c = n['c']
                 if len(c) > 1 and c[1].get('k') == 'DeclRefExpr' and c[1].get('local') and not n.get('callee', '').endswith(' const'):
                     m.add(c[1].get('dloc'))
+        # a local declared as a reference names an object: what is done through it is done to that object, the name itself never changes
+        for d, n in self.env.decls.items():
+            if d in m and d not in self.env.assigned and (n.get('t') or '').rstrip().endswith('&') and isinstance(n.get('init'), dict) and not n.get('bindings'):
+                m.discard(d)
         return m
 
     def _substituted(self, loc):
@@ -182,12 +186,12 @@ class Summ:
             return tuple(out) if out else None
         if k in ('CXXForRangeStmt',):
             sl = s['slots']
-            return ('foreach', self.name_of(sl['var']) if sl['var'].get('name') else len(sl['var'].get('bindings') or ()), self.term(sl['range']), self.paths(sl['body']))
+            return ('foreach', self.name_of(sl['var']) if sl['var'].get('name') else len(sl['var'].get('bindings') or ()), self.term(sl['range']), self.paths(sl['body'], loop=True))
         if k in ('ForStmt', 'WhileStmt', 'DoStmt'):
             sl = s['slots']
             return (k, self.term(sl.get('init')) if sl.get('init') and sl['init'].get('k') != 'DeclStmt' else (self.stmt(sl['init']) if sl.get('init') else None),
                     self.term(sl.get('cond')) if sl.get('cond') else None,
-                    self.term(sl.get('inc')) if sl.get('inc') else None, self.paths(sl['body']))
+                    self.term(sl.get('inc')) if sl.get('inc') else None, self.paths(sl['body'], loop=True))
         if k == 'CXXTryStmt':
             c = s.get('c') or []
             return ('try', self.paths(c[0]), tuple((h.get('caught'), self.paths(h['c'][0])) for h in c[1:]))
@@ -202,7 +206,7 @@ class Summ:
             return ('goto', s.get('label'))
         return self.term(s)
 
-    def paths(self, body):
+    def paths(self, body, loop=False):
         out = []
         for p in enum_paths(body):
             conds = []
@@ -226,7 +230,7 @@ class Summ:
                 if e is None:
                     continue
                 effs.append(e)
-            out.append((tuple(conds), tuple(sorted(effs, key=repr)), p.end))
+            out.append((tuple(conds), tuple(sorted(effs, key=repr)), 'fall' if (loop and p.end == 'continue') else p.end))      # `continue` = reaching the end of the loop body
         return tuple(sorted(set(out), key=repr))
 
     def summary(self):
